@@ -12,6 +12,7 @@ published layouts drives real values created by a Rust static library built from
  kind 10 it(C) rows 'n script..'        an iterator BUILT BY C {iter, func: 0 = item}, advanced by Rust       -> '1 v' / '0 0' per call
  kind 11 arc(C) row 'v n'               an arc BUILT BY C as a handle table (clone_fn returns a DISTINCT handle), cloned n times / read / released by Rust -> sum ; clone_fn runs ; drop_fn runs
  kind 12 vec(C) row 'init n base'        a vector BUILT BY C (malloc'ed buffer, moving reserve_fn, recording drop_fn), pushed to n times and released by Rust -> length ; length handed to drop_fn ; drop_fn runs
+ kind 14 slice_rev row 'n base'          slices {data, len} BUILT BY C (the empty one as {NULL, 0} or {pointer, 0}), read and written by Rust -> checksum ; length seen ; elements written ; checksum afterwards
  kind 13 sbox   row 'n base'             boxed slices {instance: {data, len}, drop_fn}: one BUILT BY C read and released by Rust, one built by Rust read and released by C -> checksum ; drop_fn runs ; checksum
  kind 8 sizes   sizeof/_Alignof of the C declarations vs size_of/align_of of the Rust types
 elem: 0 = 1 byte, 1 = 8 bytes (heap-owning token in vec, u64 elsewhere), 4 = 3-byte struct, 5 = 16-byte struct aligned to 16."""
@@ -73,6 +74,12 @@ def model_line(l):
         return vlib.case_line([15], [[0, 0, r[0], 3] + r[1:] for r in ops])
     if kind == 5 or kind == 10:
         return vlib.case_line([15], [[1, r[0]] + [0] * r[0] + r[1:] for r in ops])
+    if kind == 14:      # slices built by C: the contents are those of the C11 model's vector built from the same items (one row per slice)
+        rows = []
+        for r in ops:
+            n, base = (r[0] % 512 if r else 0), (r[1] if len(r) > 1 else 1)
+            rows += [[7, 0] + [base + i for i in range(n)], [8]]
+        return vlib.case_line([11, 1], rows) if rows else "11 1 |"
     if kind == 13:      # boxed slices: the contents are those of the C11 model's vector built from the same items
         if not ops or not ops[0]:
             return "11 1 |"
@@ -95,6 +102,22 @@ def model_line(l):
 
 def compare(l, impl_rows, model_rows):
     hdr, ops0 = vlib.parse_case(l)
+    if hdr[1] == 14:
+        def ck(items):
+            c = 0
+            for x in items:
+                c = (c * 31 + x) % (1 << 64)
+            return c - (1 << 64) if c >= (1 << 63) else c
+        try:
+            mr = [[int(x) for x in r.split()] for r in (model_rows or "").split(" ; ") if r.strip()]
+            reads = [r[3:] for r in mr if r and r[0] == 8]
+            want = []
+            for r, items in zip(ops0, reads):
+                base = r[1] if len(r) > 1 else 1
+                want.append("%d %d %d %d" % (ck(items), len(items), len(items), ck([(base ^ 0x55) + i for i in range(len(items))])))
+        except Exception:
+            return False
+        return [x.strip() for x in impl_rows.split(";")] == want
     if hdr[1] == 13:
         try:
             mr = [[int(x) for x in r.split()] for r in (model_rows or "").split(" ; ") if r.strip()]
@@ -160,6 +183,9 @@ def gen_cases(rng, tier):
     for nn in list(range(0, 9)) + [17, 64]:
         cases.append("16 11 0 | %d %d" % (rng.range(1, 10 ** 6), nn))
         cases.append("16 13 0 | %d %d" % (nn, rng.range(1, 10 ** 6)))
+        cases.append("16 14 0 | %d %d" % (nn, rng.range(1, 10 ** 6)))
+        if nn == 0:     # the empty slice both ways a C caller writes it: {NULL, 0} (odd) and {some pointer, 0} (even)
+            cases += ["16 14 0 | 0 1", "16 14 0 | 0 2", "16 14 0 | 0 7 ; 3 5 ; 0 9"]
         for init in (0, 1, 4, 7):
             cases.append("16 12 0 | %d %d %d" % (init, nn, rng.range(1, 10 ** 6)))
     for _ in range(n):
